@@ -1,13 +1,16 @@
 import Model
 import Proofs.Order
+import Proofs.Frozen
 /-!
 C09 — lower-priority work never disturbs higher-priority work.
 
 The work list is sorted by priority (ties in declaration order); a task with strictly lowest priority is
 its last element; the loop always picks the first ready task of the list — so the added task is picked
 only when none of the other remaining tasks is ready, and of two ready competitors the one with the
-strictly higher priority is picked first.  Partial: that the other tasks' results are identical in the
-two runs (bookings are additive; nothing depends on the added task) is the metamorphic part of the tie.
+strictly higher priority is picked first.  And what is placed later cannot disturb what was placed earlier:
+a completed task keeps its dates and every one of its bookings until the end of the loop (`placed_is_frozen`).
+Partial: that the other tasks' results are *identical in the two runs* (with and without the added task) is the
+metamorphic part of the tie — it needs a congruence of every scheduler function in the environment.
 -/
 namespace SP.C09
 open SP
@@ -55,6 +58,22 @@ theorem lowest_picked_only_when_alone (e : Env) (σ : St) (pre : List Nat) (L : 
 theorem served_first (e : Env) (l : List Nat) (a b : Nat) (pre mid post : List Nat)
     (hsplit : l.mergeSort (prioLe e) = pre ++ b :: mid ++ a :: post) : (e.taskD b).prio ≥ (e.taskD a).prio :=
   higher_first e l a b pre mid post hsplit
+
+/-- **what is placed later does not disturb what was placed earlier**: a leaf task that is completed at some point of
+    the scheduling loop has, when the loop ends, exactly the dates and flags and exactly the ledger entries (on every
+    resource, in every slot) it had at that point — for every continuation of the loop, whatever the remaining tasks,
+    their priorities and their allocations are -/
+theorem placed_is_frozen (e : Env) (fuel : Nat) (tasks failed : List Nat) (σ : St) (t : Nat)
+    (hlf : (e.taskD t).leaf = true) (hd : (σ.tst t).done = true) :
+    (pickLoop e fuel tasks failed σ).1.tst t = σ.tst t ∧
+    ∀ r i, usageOf ((pickLoop e fuel tasks failed σ).1.led.get r i).usage t = usageOf (σ.led.get r i).usage t :=
+  pickLoop_frozen e fuel tasks failed σ t hlf hd
+
+/-- in particular one more round — scheduling any task `t0` — leaves a completed task untouched -/
+theorem one_round_frozen (e : Env) (σ : St) (t0 t : Nat) (hlf : (e.taskD t).leaf = true) (hd : (σ.tst t).done = true) :
+    (updateContainers e (scheduleTask e σ t0).1).tst t = σ.tst t ∧
+    ∀ r i, usageOf ((updateContainers e (scheduleTask e σ t0).1).led.get r i).usage t = usageOf (σ.led.get r i).usage t :=
+  round_frozen e σ t0 t hlf hd
 
 example : ([0, 1, 2] : List Nat).Nodup := by decide
 
